@@ -132,6 +132,16 @@ func (t *Transaction) With(name string, readOnly bool, createFn func() (Cachable
 	 * with common enemies including concurrent read-writes to maps and scrapped
 	 * caches. */
 	// ---------------------------
+	/* A writing access takes the transaction lock first and keeps it until its
+	 * cache is locked and recorded. All goroutines of a transaction, e.g. the
+	 * index stages of a write, and its commit use the same order: transaction
+	 * then manager. Otherwise one stage can wait for the transaction lock while
+	 * holding the manager lock, which blocks every other request and deadlocks
+	 * with a sibling stage that holds the transaction lock while it waits for
+	 * the write lock of a cache, if the owner of that cache needs the manager. */
+	if !readOnly {
+		t.mu.Lock()
+	}
 	// We start with manager lock so others don't try to create the same cache
 	t.manager.mu.Lock()
 	if existingCache, ok := t.manager.sharedCaches[name]; ok {
@@ -193,7 +203,6 @@ func (t *Transaction) With(name string, readOnly bool, createFn func() (Cachable
 			 * like insert, update or delete, then we'll have to wait anyway because
 			 * of bbolt (recall bbolt only allows one read-write transaction at a
 			 * time) which is absolutely fine for a search heavy workload. */
-			t.mu.Lock()
 			/* Have we locked this cache before? Within a transaction we hold
 			 * onto writes until we know the transaction is committed. This is
 			 * to ensure other readers or writers do not see partial results.
@@ -255,6 +264,9 @@ func (t *Transaction) With(name string, readOnly bool, createFn func() (Cachable
 	if err != nil {
 		t.failed.Store(true)
 		t.manager.mu.Unlock()
+		if !readOnly {
+			t.mu.Unlock()
+		}
 		return fmt.Errorf("error while creating fresh cache: %w", err)
 	}
 	s := &sharedCacheElem{
@@ -272,7 +284,6 @@ func (t *Transaction) With(name string, readOnly bool, createFn func() (Cachable
 	} else {
 		// The following shared cache lock is released when the transaction is done.
 		s.mu.Lock()
-		t.mu.Lock()
 		t.writtenCaches[name] = s
 		t.lockedCaches = append(t.lockedCaches, s)
 		t.mu.Unlock()
